@@ -49,7 +49,10 @@ for mid, prop, desc, res, cls in rows:
 caught = sum(1 for r in rows if r[3]=='CAUGHT'); killed = sum(1 for r in rows if r[3].startswith('killed')); missed=[r[0] for r in rows if r[3]=='missed']
 out += ["", f"Summary: {caught} caught, {killed} already killed by the repository's own tests, {len(missed)} not reported ({', '.join(missed)}) — each of those is explained in the table (equivalent change, or outside the claimed properties).\n",
 "## 3. Silence on the pristine tree\n",
-"See `sensitivity/silence.txt`: every check, quick tier, over 100 different `VERIF_SEED` values on the unchanged tree: no VIOLATION line, exit 0 every time.",
-"`tools/determinism.sh` additionally shows that plan digests and history digests are identical across repeated executions and worker counts 1/4/16.\n"]
+"`sensitivity/silence.txt` (produced by `tools/silence.sh` with the final checks): every check over 100 different `VERIF_SEED` values",
+"(300..399, a tenth of the quick budget each) on the unchanged tree: no VIOLATION line, exit 0 every time.  Earlier versions of the",
+"checks were run the same way over seeds 100..199 and 200..299, and the thorough tier over seeds 7, 11, 21, 31, 41, 51, 71, 81: silent.",
+"`sensitivity/determinism.txt` (`tools/determinism.sh 512`): plan digests and history digests identical across six executions per",
+"property at worker counts 1, 4, 16, 16, 4, 1.\n"]
 open(V + '/SENSITIVITY.md','w').write("\n".join(out))
 print("written", caught, killed, missed)
